@@ -121,4 +121,33 @@ def unallowedUses (uses : List UseSite) : List UseSite :=
 def coverTheorems : List String :=
   (coveredRanges.filterMap (fun c => match c.2 with | .thm n => some n | .noState _ => none)).eraseDups
 
+/-- Audited process-level mutable state: every package-level variable written outside `init`, with the
+    exact set of writes and the reason it cannot influence consensus.  Anything a node keeps in such a
+    variable survives across blocks, transactions that were rolled back, simulations, and application
+    instances in one process; a NEW variable (or a new kind of write to a listed one) fails the obligation. -/
+def auditedPkgVars : List (PkgVar × String) := [
+  ({ pkg := "app", name := "ModuleBasics", ty := "module.BasicManager",
+     writes := ["call:DefaultGenesis", "call:RegisterGRPCGatewayRoutes", "call:RegisterInterfaces", "call:RegisterLegacyAminoCodec", "call:RegisterRESTRoutes"] },
+   "value-receiver methods of the fixed module table; nothing is stored in it"),
+  ({ pkg := "extern:github.com/cosmos/cosmos-sdk/version", name := "Version", ty := "string",
+     writes := ["assign@NewSifAppWithBlacklist"] },
+   "idempotent `v` prefixing of the build version at start-up; the version string is not consensus state"),
+  ({ pkg := "x/admin/types", name := "ModuleCdc", ty := "*codec.AminoCodec", writes := ["call:MustMarshalJSON"] }, "codec: encodes its argument, keeps nothing"),
+  ({ pkg := "x/admin/types", name := "_Msg_serviceDesc", ty := "grpc.ServiceDesc", writes := ["addr@RegisterInterfaces"] }, "generated service descriptor handed to the registry at start-up"),
+  ({ pkg := "x/clp", name := "blockTime", ty := "*time.Time", writes := ["assign@MeasureBlockTime"] }, "wall-clock of the previous block, used for a log line only"),
+  ({ pkg := "x/clp/types", name := "ModuleCdc", ty := "*codec.AminoCodec", writes := ["call:MustMarshalJSON", "call:MustMarshalLengthPrefixed"] }, "codec: encodes its argument, keeps nothing"),
+  ({ pkg := "x/clp/types", name := "_Msg_serviceDesc", ty := "grpc.ServiceDesc", writes := ["addr@RegisterInterfaces"] }, "generated service descriptor"),
+  ({ pkg := "x/dispensation/types", name := "ModuleCdc", ty := "*codec.AminoCodec", writes := ["call:MustMarshalJSON", "call:MustUnmarshalJSON"] }, "codec"),
+  ({ pkg := "x/dispensation/types", name := "_Msg_serviceDesc", ty := "grpc.ServiceDesc", writes := ["addr@RegisterInterfaces"] }, "generated service descriptor"),
+  ({ pkg := "x/ethbridge/types", name := "ModuleCdc", ty := "*codec.AminoCodec", writes := ["call:MustMarshalJSON"] }, "codec"),
+  ({ pkg := "x/ethbridge/types", name := "_Msg_serviceDesc", ty := "grpc.ServiceDesc", writes := ["addr@RegisterInterfaces"] }, "generated service descriptor"),
+  ({ pkg := "x/margin/types", name := "ModuleCdc", ty := "*codec.AminoCodec", writes := ["call:MustMarshalJSON"] }, "codec"),
+  ({ pkg := "x/margin/types", name := "_Msg_serviceDesc", ty := "grpc.ServiceDesc", writes := ["addr@RegisterInterfaces"] }, "generated service descriptor"),
+  ({ pkg := "x/tokenregistry/types", name := "ModuleCdc", ty := "*codec.AminoCodec", writes := ["call:MustMarshalJSON"] }, "codec"),
+  ({ pkg := "x/tokenregistry/types", name := "_Msg_serviceDesc", ty := "grpc.ServiceDesc", writes := ["addr@RegisterInterfaces"] }, "generated service descriptor")
+]
+
+def unauditedPkgVars (vs : List PkgVar) : List PkgVar :=
+  vs.filter (fun v => !(auditedPkgVars.any (fun c => decide (c.1 = v))))
+
 end Sif.Spec.C09
